@@ -10,7 +10,7 @@ P="$1"; SX="${2:-C}"; SY="${3:-D}"
 cd /verif
 for pair in "X:$SX" "Y:$SY"; do
   d="${pair%%:*}"; s="${pair##*:}"
-  src="/tmp/wt/$P/seed_out/$d"
+  src="${WT_ROOT:-/tmp/wt}/$P/seed_out/$d"
   [ -f "$src/patch.diff" ] || { echo "$P-$s: no delivery in $src" >> /tmp/wt/SEEDLOG.txt; continue; }
   (
     out=$(tools/confirm_seed.sh "$src" "$P-$s" "$P" 2>&1)
@@ -23,5 +23,5 @@ for pair in "X:$SX" "Y:$SY"; do
   ) &
 done
 wait
-git -C /repo worktree remove --force "/tmp/wt/$P" >/dev/null 2>&1
+git -C /repo worktree remove --force "${WT_ROOT:-/tmp/wt}/$P" >/dev/null 2>&1
 echo "$P processed" >> /tmp/wt/SEEDLOG.txt
